@@ -226,11 +226,17 @@ func run(r *vt.Run, t vt.TB, s spec) {
 				return
 			}
 		}
-		if tb.Spec.RowidAlias && (seed>>7)%8 == 0 {
+		if tb.Spec.RowidAlias && ((seed>>7)%8 == 0 || p == math.MaxInt64 || p == math.MinInt64) {
 			// numbers no rowid equals: between two integers, beyond int64
 			var nk interface{} = uint(1<<63) + uint(p&0xffff)
 			if p > -(1<<51) && p < 1<<51 {
 				nk = float64(p) + 0.5
+			}
+			if p == math.MaxInt64 {
+				nk = 9223372036854775808.0 // 2^63: the first float64 above every rowid
+			}
+			if p == math.MinInt64 {
+				nk = math.Nextafter(-9223372036854775808.0, math.Inf(-1)) // the first float64 below every rowid
 			}
 			calls := 0
 			if err := hl.PKSelect("t", sqlittle.Key{nk}, func(sqlittle.Row) { calls++ }, "rowid"); err != nil || calls != 0 {
@@ -299,8 +305,10 @@ func keyForms(p int64) []interface{} {
 			out = append(out, uint32(p))
 		}
 	}
-	if p > -(1<<53) && p < 1<<53 {
-		out = append(out, float64(p))
+	if f := float64(p); f >= -9223372036854775808.0 && f < 9223372036854775808.0 && int64(f) == p {
+		// (every integer a float64 holds exactly: also -2^63 and the large
+		// multiples of a power of two)
+		out = append(out, f)
 	}
 	if p > -(1<<24) && p < 1<<24 {
 		out = append(out, float32(p))
